@@ -1,10 +1,12 @@
-CONSTANTS B = 4  Bufs = {3, 99}  Paths = {"A", "B"}  WithTrunc = TRUE  WithCorrupt = TRUE  FixSeek = FALSE  FixTrunc = FALSE
+CONSTANTS B = 4  Bufs = {3, 99}  Paths = {"A", "B"}  WithTrunc = TRUE  WithCorrupt = TRUE  FixSeek = TRUE  FixData = TRUE  FixHdr = FALSE
 CONSTANT Shapes <- ShapesThorough
-INIT Init
-NEXT Next
+SPECIFICATION Spec
 VIEW View
 INVARIANT TypeOK
+INVARIANT TellIsTrue
 INVARIANT OwnData
-INVARIANT IntactSucceeds
+INVARIANT NoHang
+INVARIANT IntactExact
 INVARIANT DefectsExplained
-INVARIANT LossOnlyByShortSeek
+INVARIANT OnlyHeaderSwallowingLeft
+PROPERTY Terminates
